@@ -586,6 +586,8 @@ pub enum ChunkPlan {
     NearBounds(Vec<i8>),
     /// cuts at k*512 + delta
     NearBuf(Vec<i8>),
+    /// cut after byte i+1 iff bit i is set (exhaustive compositions of short streams)
+    Mask(u32),
 }
 
 impl ChunkPlan {
@@ -611,6 +613,12 @@ impl ChunkPlan {
                         .collect(),
                 )
             }
+            ChunkPlan::Mask(m) => Chunking::Cuts(
+                (0..32u32)
+                    .filter(|i| m & (1 << i) != 0)
+                    .map(|i| i + 1)
+                    .collect(),
+            ),
             ChunkPlan::NearBuf(ds) => {
                 if ds.is_empty() {
                     return Chunking::Fixed(512);
